@@ -3,10 +3,11 @@ import Qv.Model.TempRange
 /-!
 # Helper lemmas for C15: the rational part of `anneal_temperature_range`
 
-Main facts: the cached variable set of every reachable object covers the labels of its current keys
-(`Cover`), hence `max_del_energy ≥ min_del_energy ≥ 0` whenever the function returns; the function
-raises `ValueError` exactly when the variable set it reads is non-empty while no term has a label
-(candidate defect D6).
+Main facts: the variable set the function reads is the set of labels of the current keys, so it covers
+them (`Cover`), hence `max_del_energy ≥ min_del_energy ≥ 0` whenever the function returns; the core raises
+`ValueError` exactly when the variable set is non-empty while no term has a label, which cannot happen
+for the set computed from the keys: on admissible probabilities the function never raises (defect D6,
+repaired in /repo, was the stale cache `_variables` being read instead).
 -/
 namespace Qv
 
@@ -173,29 +174,37 @@ theorem mem_keysVars (i : Var) (p : Poly) (vars : List Var) :
       · subst h; exact Or.inl (Or.inr hi)
       · exact Or.inr ⟨kv, h, hi⟩
 
-theorem cover_readModel {inp : Input} {spin : Bool} {s : MState} (h : readModel inp spin = .ok s) :
-    Cover s.p s.vars := by
+/-- the variable set read is the one computed from the keys of the terms read -/
+theorem readModel_vars {inp : Input} {spin : Bool} {s : MState} (h : readModel inp spin = .ok s) :
+    s.vars = keysVars [] s.p := by
   cases inp with
   | raw d =>
     cases spin with
     | true =>
       simp only [readModel] at h
-      injection h with h
-      subst h
-      intro kv hkv i hi
-      exact (mem_keysVars i d []).2 (Or.inr ⟨kv, hkv, hi⟩)
+      injection h with h; subst h; rfl
     | false =>
-      simp only [readModel, puboToPusoV] at h
-      exact cover_p2sRows cover_empty h
+      simp only [readModel, exc_bind_ok, pure, Except.pure] at h
+      obtain ⟨h', _, h⟩ := h
+      injection h with h; subst h; rfl
   | obj κ d es =>
     cases spin with
     | true =>
-      simp only [readModel] at h
-      exact cover_buildObj h
+      simp only [readModel, exc_bind_ok, pure, Except.pure] at h
+      obtain ⟨s1, _, h⟩ := h
+      injection h with h; subst h; rfl
     | false =>
-      simp only [readModel, exc_bind_ok, puboToPusoV] at h
-      obtain ⟨s1, _, h2⟩ := h
-      exact cover_p2sRows cover_empty h2
+      simp only [readModel, exc_bind_ok, pure, Except.pure] at h
+      obtain ⟨s1, _, h', _, h⟩ := h
+      injection h with h; subst h; rfl
+
+theorem cover_keysVars (p : Poly) : Cover p (keysVars [] p) := by
+  intro kv hkv i hi
+  exact (mem_keysVars i p []).2 (Or.inr ⟨kv, hkv, hi⟩)
+
+theorem cover_readModel {inp : Input} {spin : Bool} {s : MState} (h : readModel inp spin = .ok s) :
+    Cover s.p s.vars := by
+  rw [readModel_vars h]; exact cover_keysVars s.p
 
 /-! ### min / max of a generator -/
 
@@ -415,42 +424,62 @@ theorem keysVars_const {d : Poly} (hd : ∀ kv ∈ d, kv.1 = []) (vars : List Va
     simp only [keysVars, addVars_nil_key]
     exact ih (fun kv h => hd kv (List.mem_cons_of_mem _ h)) vars
 
-/-- `pubo_to_puso` of a model whose keys are all `()` never touches the cache -/
-theorem p2sRows_const {d : Poly} (hd : ∀ kv ∈ d, kv.1 = []) (s : MState) :
-    ∃ s', p2sRows s d = .ok s' ∧ s'.vars = s.vars := by
+/-- all keys are `()` -/
+def AllConst (p : Poly) : Prop := ∀ kv ∈ p, kv.1 = []
+
+theorem allConst_set {p : Poly} (hp : AllConst p) (v : Rat) : AllConst (set p [] v) := by
+  intro kv hkv
+  unfold set at hkv
+  split at hkv
+  · exact hp kv (mem_erase_sub hkv)
+  · rcases mem_put_sub hkv with h | h
+    · exact hp kv h
+    · subst h; rfl
+
+/-- `pubo_to_puso` of a model whose keys are all `()` yields a model whose keys are all `()` -/
+theorem p2sRows_const {d : Poly} (hd : AllConst d) (s : MState) (hs : AllConst s.p) :
+    ∃ s', p2sRows s d = .ok s' ∧ AllConst s'.p := by
   induction d generalizing s with
-  | nil => exact ⟨s, rfl, rfl⟩
+  | nil => exact ⟨s, rfl, hs⟩
   | cons kv r ih =>
     obtain ⟨k, v⟩ := kv
     have hk : k = [] := hd (k, v) (List.mem_cons_self ..)
     subst hk
     obtain ⟨s', h1, h2⟩ := ih (fun kv h => hd kv (List.mem_cons_of_mem _ h))
-      ⟨set s.p [] (get s.p [] + 1 * v), s.vars⟩
+      ⟨set s.p [] (get s.p [] + 1 * v), if get s.p [] + 1 * v = 0 then s.vars else s.vars⟩
+      (allConst_set hs _)
     refine ⟨s', ?_, h2⟩
     rw [← h1]
     simp [p2sRows, genKV, p2sRow, addTermV, setItemV, squash, Kind.isSpin, Kind.isDeg2, squashS,
       bind, Except.bind, pure, Except.pure, addVars_nil_key]
 
-theorem cover_nil_vars {p : Poly} (hc : Cover p []) : ∀ kv ∈ p, kv.1 = [] := by
-  intro kv hkv
-  cases hk : kv.1 with
-  | nil => rfl
-  | cons i r =>
-    have := hc kv hkv i (by rw [hk]; exact List.mem_cons_self ..)
-    simp at this
+theorem allConst_nil : AllConst ([] : Poly) := by intro kv h; simp at h
 
 theorem tempRangeCore_nil (p : Poly) (ps pe : Rat) :
     tempRangeCore p [] ps pe = .ok (.zero, .zero) := by
   simp [tempRangeCore]
 
-
-theorem readModel_raw_const {d : Poly} (hd : ∀ kv ∈ d, kv.1 = []) (spin : Bool) :
+/-- whatever is read from a model whose (converted) terms have only `()` keys: empty variable set -/
+theorem readModel_raw_const {d : Poly} (hd : AllConst d) (spin : Bool) :
     ∃ s, readModel (.raw d) spin = .ok s ∧ s.vars = [] := by
   cases spin with
   | true => exact ⟨⟨d, keysVars [] d⟩, rfl, keysVars_const hd []⟩
   | false =>
-    obtain ⟨s', h1, h2⟩ := p2sRows_const hd ⟨[], []⟩
-    exact ⟨s', h1, h2⟩
+    obtain ⟨s', h1, h2⟩ := p2sRows_const hd ⟨[], []⟩ allConst_nil
+    refine ⟨⟨s'.p, keysVars [] s'.p⟩, ?_, keysVars_const h2 []⟩
+    simp only [readModel, puboToPusoV, h1, bind, Except.bind, pure, Except.pure]
+
+theorem readModel_obj_const {κ : Kind} {d : Poly} {es : List Edit} {s : MState}
+    (hb : buildObj κ d es = .ok s) (hd : AllConst s.p) (spin : Bool) :
+    ∃ s', readModel (.obj κ d es) spin = .ok s' ∧ s'.vars = [] := by
+  cases spin with
+  | true =>
+    refine ⟨⟨s.p, keysVars [] s.p⟩, ?_, keysVars_const hd []⟩
+    simp only [readModel, hb, bind, Except.bind, pure, Except.pure]
+  | false =>
+    obtain ⟨s', h1, h2⟩ := p2sRows_const hd ⟨[], []⟩ allConst_nil
+    refine ⟨⟨s'.p, keysVars [] s'.p⟩, ?_, keysVars_const h2 []⟩
+    simp only [readModel, hb, puboToPusoV, h1, bind, Except.bind, pure, Except.pure]
 
 theorem tempRange_raw_const {d : Poly} (hd : ∀ kv ∈ d, kv.1 = []) {ps pe : Rat}
     (h0 : 0 ≤ pe) (h1 : pe ≤ ps) (h2 : ps < 1) (spin : Bool) :
@@ -460,35 +489,82 @@ theorem tempRange_raw_const {d : Poly} (hd : ∀ kv ∈ d, kv.1 = []) {ps pe : R
   show tempRangeCore s.p s.vars ps pe = _
   rw [hv, tempRangeCore_nil]
 
-/-- boolean path on an object: only the terms are read, the fresh `PUSO` has a fresh cache -/
-theorem tempRange_obj_bool_const {κ : Kind} {d : Poly} {es : List Edit} {s : MState}
+/-- an object whose current keys are all `()` gives `(0, 0)` whatever its history, on both paths -/
+theorem tempRange_obj_const {κ : Kind} {d : Poly} {es : List Edit} {s : MState}
     (hb : buildObj κ d es = .ok s) (hd : ∀ kv ∈ s.p, kv.1 = []) {ps pe : Rat}
-    (h0 : 0 ≤ pe) (h1 : pe ≤ ps) (h2 : ps < 1) :
-    tempRange (.obj κ d es) ps pe false = .ok (.zero, .zero) := by
-  obtain ⟨s', hs, hv⟩ := p2sRows_const hd ⟨[], []⟩
-  rw [tempRange_eq h0 h1 h2]
-  simp only [readModel, hb, puboToPusoV, bind, Except.bind, hs]
-  rw [hv, tempRangeCore_nil]
-
-theorem tempRange_obj_novars {κ : Kind} {d : Poly} {es : List Edit} {s : MState}
-    (hb : buildObj κ d es = .ok s) (hv : s.vars = []) {ps pe : Rat}
     (h0 : 0 ≤ pe) (h1 : pe ≤ ps) (h2 : ps < 1) (spin : Bool) :
     tempRange (.obj κ d es) ps pe spin = .ok (.zero, .zero) := by
-  cases spin with
-  | false =>
-    have hc := cover_buildObj hb
-    rw [hv] at hc
-    exact tempRange_obj_bool_const hb (cover_nil_vars hc) h0 h1 h2
-  | true =>
-    rw [tempRange_eq h0 h1 h2]
-    simp only [readModel, hb, bind, Except.bind]
-    rw [hv, tempRangeCore_nil]
-
-theorem tempRange_error_iff {inp : Input} {spin : Bool} {s : MState} {ps pe : Rat} {e : Err}
-    (hs : readModel inp spin = .ok s) (h0 : 0 ≤ pe) (h1 : pe ≤ ps) (h2 : ps < 1) :
-    tempRange inp ps pe spin = .error e ↔ e = .value ∧ s.vars ≠ [] ∧ ∀ kv ∈ s.p, kv.1 = [] := by
+  obtain ⟨s', hs, hv⟩ := readModel_obj_const hb hd spin
   rw [tempRange_eq h0 h1 h2, hs]
-  exact tempRangeCore_error_iff
+  show tempRangeCore s'.p s'.vars ps pe = _
+  rw [hv, tempRangeCore_nil]
+
+/-! ### the function never raises on admissible probabilities -/
+
+theorem addTermV_puso_ok (s : MState) (k : Key) (v : Rat) :
+    ∃ s', addTermV (squash .puso) s k v = .ok s' := by
+  simp [addTermV, setItemV, squash, Kind.isSpin, Kind.isDeg2, bind, Except.bind, pure, Except.pure]
+
+theorem p2sRow_ok (l : List (Key × Rat)) (s : MState) (v : Rat) : ∃ s', p2sRow s v l = .ok s' := by
+  induction l generalizing s with
+  | nil => exact ⟨s, rfl⟩
+  | cons kv r ih =>
+    obtain ⟨key, value⟩ := kv
+    obtain ⟨s1, h1⟩ := addTermV_puso_ok s key (value * v)
+    obtain ⟨s2, h2⟩ := ih s1
+    exact ⟨s2, by simp only [p2sRow, h1, bind, Except.bind]; exact h2⟩
+
+theorem p2sRows_ok (d : Poly) (s : MState) : ∃ s', p2sRows s d = .ok s' := by
+  induction d generalizing s with
+  | nil => exact ⟨s, rfl⟩
+  | cons kv r ih =>
+    obtain ⟨k, v⟩ := kv
+    obtain ⟨s1, h1⟩ := p2sRow_ok (genKV k) s v
+    obtain ⟨s2, h2⟩ := ih s1
+    exact ⟨s2, by simp only [p2sRows, h1, bind, Except.bind]; exact h2⟩
+
+/-- reading the model fails only if the object could not be constructed in the first place -/
+theorem readModel_ok (inp : Input) (spin : Bool)
+    (hb : ∀ κ d es, inp = .obj κ d es → ∃ s, buildObj κ d es = .ok s) :
+    ∃ s, readModel inp spin = .ok s := by
+  cases inp with
+  | raw d =>
+    cases spin with
+    | true => exact ⟨_, rfl⟩
+    | false =>
+      obtain ⟨h, hh⟩ := p2sRows_ok d ⟨[], []⟩
+      exact ⟨⟨h.p, keysVars [] h.p⟩, by
+        simp only [readModel, puboToPusoV, hh, bind, Except.bind, pure, Except.pure]⟩
+  | obj κ d es =>
+    obtain ⟨s, hs⟩ := hb κ d es rfl
+    cases spin with
+    | true =>
+      exact ⟨⟨s.p, keysVars [] s.p⟩, by
+        simp only [readModel, hs, bind, Except.bind, pure, Except.pure]⟩
+    | false =>
+      obtain ⟨h, hh⟩ := p2sRows_ok s.p ⟨[], []⟩
+      exact ⟨⟨h.p, keysVars [] h.p⟩, by
+        simp only [readModel, hs, puboToPusoV, hh, bind, Except.bind, pure, Except.pure]⟩
+
+/-- the core never raises on the variable set computed from the keys -/
+theorem tempRangeCore_keys_ok (p : Poly) (ps pe : Rat) :
+    ∃ r, tempRangeCore p (keysVars [] p) ps pe = .ok r := by
+  cases h : tempRangeCore p (keysVars [] p) ps pe with
+  | ok r => exact ⟨r, rfl⟩
+  | error e =>
+    obtain ⟨_, hv, hc⟩ := tempRangeCore_error_iff.1 h
+    exact absurd (keysVars_const hc []) hv
+
+theorem tempRange_never_raises (inp : Input) (spin : Bool) {ps pe : Rat}
+    (hb : ∀ κ d es, inp = .obj κ d es → ∃ s, buildObj κ d es = .ok s)
+    (h0 : 0 ≤ pe) (h1 : pe ≤ ps) (h2 : ps < 1) :
+    ∃ t0 tf, tempRange inp ps pe spin = .ok (t0, tf) := by
+  obtain ⟨s, hs⟩ := readModel_ok inp spin hb
+  rw [tempRange_eq h0 h1 h2, hs]
+  show ∃ t0 tf, tempRangeCore s.p s.vars ps pe = _
+  rw [readModel_vars hs]
+  obtain ⟨⟨t0, tf⟩, hr⟩ := tempRangeCore_keys_ok s.p ps pe
+  exact ⟨t0, tf, hr⟩
 
 theorem tempRange_inadmissible (inp : Input) (ps pe : Rat) (spin : Bool)
     (h : ¬ (0 ≤ pe ∧ pe ≤ ps ∧ ps < 1)) : tempRange inp ps pe spin = .error .value := by
